@@ -61,7 +61,12 @@ def check_call(ident, args, ufns=None, call=None):
                 out.detail = 'requires not met: ' + cl
                 return out
         for g, expr in con.ghost.items():
-            env[g] = eval(compile(expr.strip(), '<ghost>', 'eval'), specrt.namespace(env))
+            try:
+                env[g] = eval(compile(expr.strip(), '<ghost>', 'eval'), specrt.namespace(env))
+            except specrt.Unevaluable:
+                raise
+            except Exception:
+                env[g] = specrt.Undefined()
     except specrt.Unevaluable as e:
         out.status = 'skipped'
         out.detail = 'precondition not executable: %s' % e
